@@ -103,6 +103,8 @@ func (w *world) exec(line string) string {
 		return hx.Join(ids, ",") + " " + hx.Join(verdicts, ",") + " " + hx.Join(orc, ",")
 	case "fact":
 		return facts(t[1])
+	case "begin": // no-op first line of a case (keeps the minimiser's last candidate a failing one)
+		return ""
 	}
 	panic("bad op " + line)
 }
@@ -121,7 +123,7 @@ func runScript(tr *hx.Trace, lines []string) {
 }
 
 func caseLines(id string, root *rtx.Node, lsets []model.LabelSet) []string {
-	lines := []string{fmt.Sprintf("case %s recv=%s", id, strings.Join(rtx.Receivers, "."))}
+	lines := []string{fmt.Sprintf("case %s recv=%s", id, strings.Join(rtx.Receivers, ".")), "begin"}
 	root.Walk(func(n *rtx.Node) { lines = append(lines, n.Line()) })
 	lines = append(lines, "build")
 	for _, ls := range lsets {
@@ -313,7 +315,7 @@ func TestEngine(t *testing.T) {
 		flush()
 		return
 	}
-	runScript(tr, []string{"case facts", "fact api", "fact amtool", "fact dispatcher"})
+	runScript(tr, []string{"case facts", "begin", "fact api", "fact amtool", "fact dispatcher"})
 	r := hx.Rand(7)
 	g := rtx.GenOpts{MaxDepth: 4, MaxFan: 4, MaxNodes: 14, Names: rtx.LabelNames, Timers: true}
 	for id := range hx.Cases(2500, 40000) {
